@@ -143,7 +143,7 @@ impl Cell {
 }
 
 /// Worker entry: runs `start..end`, prints protocol lines on stdout (buffered; whole lines only).
-pub fn worker_main<S: Sim>(prop: &str, tier: Tier, seed: u64, start: u64, end: u64, samples: u64, cell_path: &str, dump: bool) {
+pub fn worker_main<S: Sim>(prop: &str, tier: Tier, seed: u64, start: u64, end: u64, samples: u64, cell_path: &str, dump: bool, stride: u64) {
     super::install_panic_hook();
     alloc::install_trap_handler();
     let cell = Cell::open(cell_path);
@@ -156,9 +156,10 @@ pub fn worker_main<S: Sim>(prop: &str, tier: Tier, seed: u64, start: u64, end: u
     let mut violations_sent = 0u32;
     let mut done = 0u64;
     use std::fmt::Write as _;
-    for idx in start..end {
+    for v in start..end {
+        let idx = v * stride;
         let sc = gen_scenario_with::<S>(&plan, prop, tier, seed, idx);
-        cell.set(idx, done);
+        cell.set(v, done);
         alloc::CURRENT_RUN.store(idx, Ordering::Relaxed);
         let o = S::run(prop, &sc, false);
         done += 1;
@@ -176,7 +177,7 @@ pub fn worker_main<S: Sim>(prop: &str, tier: Tier, seed: u64, start: u64, end: u
                 let _ = writeln!(buf, "K {}", k);
             }
         }
-        if idx - start < samples {
+        if v - start < samples {
             let _ = writeln!(buf, "S {}", json!({"run": idx, "scenario": sc}));
         }
         if let Some(v) = &o.violation {
@@ -261,7 +262,7 @@ pub struct CheckResult {
     pub worker_deaths: u64,
 }
 
-fn spawn_worker(sim: &str, prop: &str, tier: Tier, seed: u64, start: u64, end: u64, samples: u64, cell: &str, dump: bool) -> Child {
+fn spawn_worker(sim: &str, prop: &str, tier: Tier, seed: u64, start: u64, end: u64, samples: u64, cell: &str, dump: bool, stride: u64) -> Child {
     let exe = std::env::current_exe().expect("HARNESS: current_exe");
     Command::new(exe)
         .args([
@@ -275,6 +276,7 @@ fn spawn_worker(sim: &str, prop: &str, tier: Tier, seed: u64, start: u64, end: u
             &samples.to_string(),
             cell,
             if dump { "dump" } else { "nodump" },
+            &stride.to_string(),
         ])
         .stdin(Stdio::null())
         .stdout(Stdio::piped())
@@ -357,6 +359,7 @@ fn drive_range<S: Sim>(
     samples: u64,
     deaths: &AtomicU64,
     dump: bool,
+    stride: u64,
 ) -> WorkerAgg {
     let mut total = WorkerAgg::default();
     let mut restarts = 0;
@@ -364,7 +367,7 @@ fn drive_range<S: Sim>(
         let cell_path = new_cell_file();
         let cell = Cell::open(&cell_path);
         cell.set(u64::MAX, 0);
-        let mut child = spawn_worker(S::NAME, prop, tier, seed, start, end, if restarts == 0 { samples } else { 0 }, &cell_path, dump);
+        let mut child = spawn_worker(S::NAME, prop, tier, seed, start, end, if restarts == 0 { samples } else { 0 }, &cell_path, dump, stride);
         let stdout = child.stdout.take().unwrap();
         let pid = child.id();
         // watchdog: kill the child if the run in flight does not change for 120 s
@@ -447,9 +450,9 @@ fn drive_range<S: Sim>(
                 None => format!("abort(exit {})", status.code().unwrap_or(-1)),
             }
         };
-        let sc = gen_scenario::<S>(prop, tier, seed, culprit);
+        let sc = gen_scenario::<S>(prop, tier, seed, culprit * stride);
         total.found.push(Found {
-            run: culprit,
+            run: culprit * stride,
             violation: Violation::new(class, "", agg.trap_line.clone().unwrap_or_default()),
             scenario: serde_json::to_value(&sc).unwrap(),
             size: S::size(&sc).into_iter().map(|(k, v)| (k.to_string(), v)).collect(),
@@ -465,10 +468,14 @@ fn drive_range<S: Sim>(
     total
 }
 
-pub fn run_check<S: Sim>(prop: &str, tier: Tier, seed: u64, workers: usize, limit: Option<u64>, dump: bool) -> CheckResult {
+pub fn run_check<S: Sim>(prop: &str, tier: Tier, seed: u64, workers: usize, limit: Option<u64>, dump: bool, spread: bool) -> CheckResult {
     let plan = S::plan(prop, tier);
     let mut total = total_runs(&plan);
+    let mut stride = 1u64;
     if let Some(l) = limit {
+        if spread && l > 0 && total > l {
+            stride = total / l;
+        }
         total = total.min(l);
     }
     let t0 = Instant::now();
@@ -492,7 +499,7 @@ pub fn run_check<S: Sim>(prop: &str, tier: Tier, seed: u64, workers: usize, limi
                 }
                 let end = (start + block).min(total);
                 let samples = if b < 3 && wi < 3 { 1 } else { 0 };
-                let mut agg = drive_range::<S>(&prop, tier, seed, start, end, samples, &deaths, dump);
+                let mut agg = drive_range::<S>(&prop, tier, seed, start, end, samples, &deaths, dump, stride);
                 acc.hashes.append(&mut agg.hashes);
                 acc.dump.append(&mut agg.dump);
                 acc.died_runs += agg.died_runs;
